@@ -49,6 +49,7 @@ func vNewSession(budget int, auth []byte) *vSession {
 	sid, err := s.srvData.SID()
 	vAssert(err == nil, "SID failed")
 	s.relay = newRelay(sid, budget)
+	s.relay.delFail = vParam("delfail", 0) != 0
 	if budget > 0 {
 		s.relay.skip = vIntRange("relay_skip", 0, vParam("maxskip", 0))
 		s.relay.texts = vParam("errtexts", 0) != 0
